@@ -132,10 +132,17 @@ class SlotRef:
     def __init__(self, slot: "SlotNode", context: Context):
         self._slot = slot
         self._context = context
+        # Remember which component the slot belongs to. With the "django" context behavior, the fill
+        # is rendered with this same Context object, but with the component key pointing to the parent
+        # component. The slot's default content must still be resolved against the slot's own component.
+        self._component_keys = {
+            key: context[key] for key in (_COMPONENT_CONTEXT_KEY, "component_vars") if key in context
+        }
 
     # Render the slot when the template coerces SlotRef to string
     def __str__(self) -> str:
-        return mark_safe(self._slot.nodelist.render(self._context))
+        with self._context.update(self._component_keys):
+            return mark_safe(self._slot.nodelist.render(self._context))
 
 
 class SlotIsFilled(dict):
